@@ -51,6 +51,25 @@ Definition final_table (rows : list row) : table := final_sort (aggregate rows).
 Definition sum_scores (k : key) (rows : list row) : Z := fold_right Z.add 0%Z (scores_of k rows).
 
 (* ---------------------------------------------------------------------------------------------------------- *)
+(* per-batch view (theorems in PerBatch.v): one score per batch and ordered pair *)
+Definition mrep (m : nat) (l : list Z) : list Z := flat_map (fun z => repeat z m) l.
+
+(* the score a batch records for pair k (none if the batch did not evaluate k) *)
+Definition batch_score (k : key) (b : list row) : list Z :=
+  match scores_of k b with [] => [] | z :: _ => [z] end.
+Definition per_batch_scores (k : key) (brs : list (list row)) : list Z := flat_map (batch_score k) brs.
+
+(* every batch either has no row for k or exactly m rows for k, all with one score *)
+Definition uniform_batches (m : nat) (k : key) (brs : list (list row)) : Prop :=
+  Forall (fun b => scores_of k b = [] \/ exists z, scores_of k b = repeat z m) brs.
+
+(* one row per ordered pair of a batch (its first score), and the check that this loses nothing *)
+Definition batch_once (b : list row) : list row := map (fun k => (k, hd 0%Z (scores_of k b))) (keys b).
+Definition batch_uniformb (b : list row) : bool :=
+  forallb (fun r => forallb (fun r' => negb (key_eqb (fst r) (fst r')) || Z.eqb (snd r) (snd r')) b) b.
+
+
+(* ---------------------------------------------------------------------------------------------------------- *)
 (* boolean checkers for implementation outputs *)
 
 Definition row_eqb (r1 r2 : row) : bool := key_eqb (fst r1) (fst r2) && Z.eqb (snd r1) (snd r2).
